@@ -25,7 +25,7 @@ def check(ctx, rep, tier):
                  "substitution is a retraction and the second cannot create input for the first")
     rep.describe("normalised-input", "the text reaching the matcher went through the normaliser")
     rep.describe("case", "every pattern atom that can match a cased letter is case-insensitive")
-    cm = ctx.mod("ctparse.ctparse")
+    cm = ctx.imod("ctparse.ctparse")
     pre = cm.func("_preprocess_string")
     pats = _module_patterns(cm)
     full = tier == "thorough"
@@ -33,8 +33,12 @@ def check(ctx, rep, tier):
     if not rets:
         raise AnalysisError("anchor vanished: _preprocess_string returns nothing")
     rep.count("normaliser_return_paths", len(rets), 1)
+    from . import strterms as st_
+    T = st_.Terms(cm)
+    T.run(pre.body, {pre.args.args[0].arg: ("text", "raw")})
+    ret_terms = {id(node): term for term, node in T.returns}
     for ri, r in enumerate(rets):
-        subs = _sub_chain(r.value, pats)
+        subs = _term_chain(ret_terms.get(id(r)), st_)
         tag = "" if len(rets) == 1 else " [return {}]".format(ri + 1)
         domain = _path_domain(r, pre)
         if len(subs) != 2:
@@ -91,6 +95,20 @@ def _module_patterns(cm):
                 any("VERSION1" in norm(k.value) for k in st.value.keywords)
             out[st.targets[0].id] = (st.value.args[0].value, v1, st)
     return out
+
+
+def _term_chain(t, st_):
+    """[(label, pattern text, version1?, replacement, stripped?)] innermost first, from the
+    provenance term of a returned value"""
+    out = []
+    while True:
+        t, strip = st_.strip_ops(t)
+        if isinstance(t, tuple) and t and t[0] == "sub":
+            out.append((t[5], t[1], t[2], t[3], strip))
+            t = t[4]
+        else:
+            break
+    return list(reversed(out))
 
 
 def _sub_chain(e, pats):
